@@ -16,7 +16,8 @@ for p in props:
     for f in [os.path.join(ROOT, "coq", "Props", pid + ".v")] + sorted(glob.glob(os.path.join(ROOT, "coq", "Props", pid + "gen*.v"))) + \
             sorted(glob.glob(os.path.join(ROOT, "coq", "Props", pid + "bridge*.v"))):
         if os.path.exists(f):
-            names = re.findall(r"^\s*Theorem\s+([\w']+)", open(f).read(), re.M)
+            txt = re.sub(r"\(\*.*?\*\)", "", open(f).read(), flags=re.S)     # comments removed (non-nested is enough here)
+            names = re.findall(r"^\s*Theorem\s+([\w']+)", txt, re.M)
             nthm += len(names)
             nref += sum(1 for n in names if n.endswith("_refuted") or "_refuted_" in n)
             npart += sum(1 for n in names if n.endswith("_partial"))
